@@ -1231,6 +1231,15 @@ fn format_struct(
     output.push_str("struct ");
     output.push_str(&def.name);
 
+    if let Some((last, main)) = def.base_types.split_last() {
+        output.push_str(" : ");
+        for base_type in main {
+            format_type(base_type, output, context)?;
+            output.push_str(", ");
+        }
+        format_type(last, output, context)?;
+    }
+
     context.new_line(output);
     output.push('{');
     context.push_indent();
